@@ -153,6 +153,30 @@ def oracle(ctx, case, res, real):
         if got != exp:
             ctx.failures.append(Failure("C10/composition", "output differs from the documented composition of the single operations", inp, got[:4], exp[:4]))
         ctx.count("reference-checked")
+    # (b2) paired reference for the purely positional options: -u on R1, -U on R2, then --length on both unless -L is given (then -L on R2)
+    if case["paired"] and case["with_qual"] and all(t in {"--no-index", "-u", "-U", "-l", "-L", "-o", "-p"} for t in toks):
+        def cut(s_, q_, c):
+            return (s_[c:], q_[c:]) if c > 0 else (s_[:c], q_[:c]) if c < 0 else (s_, q_)
+
+        def shorten(s_, q_, n):
+            return (s_[:n], q_[:n]) if n >= 0 else (s_[n:], q_[n:])
+        cuts1 = [int(argv[i + 1]) for i, t in enumerate(argv) if t == "-u"]
+        cuts2 = [int(argv[i + 1]) for i, t in enumerate(argv) if t == "-U"]
+        l1 = int(argv[argv.index("-l") + 1]) if "-l" in argv else None
+        l2 = int(argv[argv.index("-L") + 1]) if "-L" in argv else l1
+        for side, reads, cuts, ln in ((0, case["reads1"], cuts1, l1), (1, case["reads2"], cuts2, l2)):
+            exp = []
+            for name, s_, q_ in reads:
+                for c in cuts:
+                    s_, q_ = cut(s_, q_, c)
+                if ln is not None:
+                    s_, q_ = shorten(s_, q_, ln)
+                exp.append((name, s_, q_))
+            got = [tuple(r) for fn, sd, recs in pipeprop.output_roles(case, real) if sd == side for r in recs]
+            if got != exp:
+                ctx.failures.append(Failure("C10/routing", f"R{side + 1}: -u acts on R1, -U on R2, --length on both unless -L is given (then -L on R2): "
+                                            "output differs from that", inp, got[:3], exp[:3]))
+        ctx.count("paired-positional-reference-checked")
     # (c) routing: options of one side leave the other side untouched
     if case["paired"]:
         r1_only = {"--no-index", "-u", "-a", "-g", "-b", "-o", "-p", "-e", "-O"}
@@ -210,10 +234,10 @@ def directed_stepwise(ctx):
                 argv.extend(toks)
                 return True
             return False
-        if maybe(0.5, ["-u", str(rng.choice([1, 3, -2, 5]))]):
+        if maybe(0.5, ["-u", str(rng.choice([1, 3, -2, 5, 0]))]):
             maybe(0.3, ["-u", str(-int(argv[-1]))])
         if paired:
-            maybe(0.35, ["-U", str(rng.choice([2, -3]))])
+            maybe(0.35, ["-U", str(rng.choice([2, -3, 0]))])
         maybe(0.25, ["--nextseq-trim", "20"])
         if maybe(0.4, ["-q", rng.choice(["10", "15,10", "20"])]) and paired:
             maybe(0.4, ["-Q", rng.choice(["0", "25", "5,30"])])
@@ -240,11 +264,11 @@ def directed_stepwise(ctx):
             if x < 0.25:
                 argv.extend(["-l", str(rng.choice([12, -8, 20]))])
             elif x < 0.5:
-                argv.extend(["-L", str(rng.choice([10, -6, 25]))])
+                argv.extend(["-L", str(rng.choice([10, -6, 25, 0]))])
             elif x < 0.65:
-                argv.extend(["-l", "15", "-L", "9"])
+                argv.extend(["-l", rng.choice(["15", "0", "12"]), "-L", rng.choice(["9", "0", "0", "-4"])])
         else:
-            maybe(0.4, ["-l", str(rng.choice([12, -8, 20]))])
+            maybe(0.4, ["-l", str(rng.choice([12, -8, 20, 0]))])
         maybe(0.3, ["--trim-n"])
         maybe(0.15, ["--length-tag", "length="])
         maybe(0.15, ["--strip-suffix", rng.choice(["0:1", ":1"])])
@@ -282,6 +306,20 @@ def directed(ctx):
                 q = q[:k] + "".join(chr(33 + rng.choice([2, 5])) for _ in s[k:])
             reads.append((f"r{i}", s, q))
         cases.append(dict(argv=argv, paired=False, reads1=reads, reads2=None, with_qual=True, interleaved_in=False))
+    for _ in range(ctx.scale(40, 600)):
+        # positional options only, zero included: -u / -U / -l / -L
+        r1, r2 = pipe.gen_reads(rng, 5, [], [], True)
+        argv = ["--no-index"]
+        if rng.random() < 0.5:
+            argv += ["-u", str(rng.choice([0, 1, 3, -2]))]
+        if rng.random() < 0.5:
+            argv += ["-U", str(rng.choice([0, 2, -3, 4]))]
+        if rng.random() < 0.6:
+            argv += ["-l", str(rng.choice([0, 8, -5, 12]))]
+        if rng.random() < 0.7:
+            argv += ["-L", str(rng.choice([0, 0, 6, -4, 10]))]
+        argv += ["-o", "{dir}/o1.fastq", "-p", "{dir}/o2.fastq"]
+        cases.append(dict(argv=argv, paired=True, reads1=r1, reads2=r2, with_qual=True, interleaved_in=False))
     for _ in range(ctx.scale(30, 500)):
         r1, r2 = pipe.gen_reads(rng, 5, ["GATTACAGA"], ["AAAGGGCCC"], True)
         which = rng.choice([1, 2])
